@@ -1204,10 +1204,10 @@ func TestVerifC18(t *testing.T) {
 	defer x.s.Stop()
 	x.ensureRefSets()
 	policies := x.ensureRefPolicies()
-	total := vlib.Scale(2400, 72000)
+	total := vlib.Scale(3400, 102000)
 	vlib.Cases(total, func(idx int) {
 		c := &c18SCtx{r: vlib.CaseRand("c18srv", idx), idx: idx}
-		switch idx % 12 {
+		switch idx % 17 {
 		case 0, 1, 2, 3, 4, 5:
 			x.pathCase(c)
 		case 6, 7:
@@ -1218,8 +1218,20 @@ func TestVerifC18(t *testing.T) {
 			x.definedSetCase(c)
 		case 10:
 			x.statementCase(c)
-		default:
+		case 11:
 			x.assignmentCase(c, policies)
+		case 12, 13:
+			x.definedSetSeqCase(c)
+		case 14:
+			if (idx/17)%2 == 0 {
+				x.statementSeqCase(c)
+			} else {
+				x.policySeqCase(c)
+			}
+		case 15:
+			x.assignmentSeqCase(c, policies)
+		default:
+			x.peerUpdateCase(c, policies)
 		}
 	})
 }
